@@ -183,13 +183,40 @@ def parseLedger (c : Case) : Option LedgerParsed := do
   some { dflt := dflt, init := init, txs := txs, impls := impls, implOutcome := implOutcome,
          implMsg := String.intercalate " " ((resLine.getD []).drop 3) }
 
+/-- `q` has a finite decimal expansion (its reduced denominator is a product of 2s and 5s) -/
+partial def stripFactor (n f : Nat) : Nat := if n % f == 0 && n > 0 && f > 1 then stripFactor (n / f) f else n
+def finiteDecimal (q : Rat) : Bool := stripFactor (stripFactor q.den 2) 5 == 1
+
+/-- some split of the history has a factor (or inverse factor) without a finite decimal expansion -/
+def hasNonTermSplit (txs : List Tx) : Bool :=
+  txs.any (fun t => match t.act with
+    | .split post pre _ => pre != 0 && post != 0 && (!finiteDecimal (post / pre) || !finiteDecimal (pre / post))
+    | _ => false)
+
+/-- Decimal noise at a zero threshold (cf. F-04n): after divisions by a split factor without a finite
+    decimal expansion, a buyer who sold everything can end the window with 1e-27 shares instead of 0
+    in the implementation's 28-digit arithmetic; it then counts as "still holding" and receives the
+    whole adjustment, where exact arithmetic finds no buyer holding shares.  The reports part at a
+    generated SfLA row for an affiliate that holds nothing.  Such a case is skipped like the other
+    near-threshold cases: the first row on which model and implementation differ in kind or
+    affiliate is, on the implementation's side, a generated adjustment of an affiliate with no shares. -/
+partial def noiseBuyerAt : List Delta → List ImplDelta → Bool
+  | m :: ms, x :: xs =>
+    if m.tx.aff == x.aff && actName m.tx.act == x.act then noiseBuyerAt ms xs
+    else x.gen && x.act == "sfla" && x.pre.shares == 0
+  | [], x :: _ => x.gen && x.act == "sfla" && x.pre.shares == 0
+  | _, _ => false
+
+def noiseBuyer (txs : List Tx) (ms : List Delta) (xs : List ImplDelta) : Bool :=
+  hasNonTermSplit txs && noiseBuyerAt ms xs
+
 /-- Correspondence verdict: (diffKind, message) or none. -/
 def ledgerCompare (p : LedgerParsed) : Res :=
   let (ds, fail) := deltaList p.dflt p.init p.txs
   let tags := ledgerTags p.txs ds fail
   let modelOutcome := match fail with
     | none => "ok" | some (.err _) => "err" | some (.panic _) => "panic"
-  if nearThreshold ds then { verdict := "ok", tags := "near=1" :: tags }
+  if nearThreshold ds || noiseBuyer p.txs ds p.impls then { verdict := "ok", tags := "near=1" :: tags }
   else if p.implOutcome == "panic" then
     { verdict := "DIFF", tags := "dk=panic" :: tags,
       msg := s!"implementation panicked (model: {modelOutcome}): {p.implMsg}" }
